@@ -20,7 +20,9 @@ def runs(tier, seed, replay):
 
 CONFIG = {
     "runs": runs,
-    "status": "full after the repair F2 for everything the model covers; refuted before it; the enum cursor precondition is the named gap "
+    "status": "full after the repairs F2 and F21 for everything the model covers; refuted before F2; the enum cursor precondition (finding K2) is "
+              "CLOSED by F21 (repo_patches/F21-cursor-per-model.patch: the cursor is a field of the loaded model, emptied by Ddnnf::swap / rebuild; "
+              "without it this check reports VIOLATION enumerate:cursor-shared-across-models): it is an invariant of the stream state machine "
               "(K6 = range expansion before the boundary check is fixed by F18, /repo 2026f7b; C13_f18_same_result: the repaired get_numbers "
               "returns the same Ok value / error code and text / panic as the expanding model for every token list, every boundary 0 <= b and both "
               "profiles, so the model did not have to change; time and memory are not modelled). Model/StreamMsg.v = token-level model of handle_stream_msg over ASCII lines (split_whitespace, "
@@ -28,11 +30,21 @@ CONFIG = {
               "parsers a..b | a.. | a, i32 overflow, zero removal, boundary check, get_floats / split_clauses with the f64 grammar, u64/usize "
               "parse, dispatch, op_with_assumptions_and_vars, format_vec / format_vec_vec; every unwrap / index / slice / remove / abs / "
               "negation / usize + / to_usize().expect / BigInt % is an explicit Panic branch; V0 = before F2, V1 = after; debug and release "
-              "profiles). Proved (24 theorems, closed under the global context): "
+              "profiles). Proved (30 theorems, closed under the global context): "
               "C13_parse_no_panic (every line, every state, both profiles: the parsing half never reaches a partial operation and terminates), "
-              "C13_no_panic (whole handler; unconditional for every line that is not an accepted enum request, for enum under enum_safe = the "
-              "cursor does not exceed the count and the root is not a true node; C13_enum_guard_needed: that hypothesis cannot be dropped, "
-              "finding K2), C13_profile_irrelevant, "
+              "C13_no_panic (ONE line in ANY state; unconditional for every line that is not an accepted enum request, for enum under enum_safe = the "
+              "cursor does not exceed the count and the root is not a true node; C13_enum_guard_needed: in an arbitrary state that hypothesis cannot be "
+              "dropped), THE CURSOR INVARIANT (Proofs/StreamMsgCursor.v; stream_inv st = exists C n, wf_sstate C n st, 0 < n, and for every assumption "
+              "list A within 1..n with count(A) > 0: 0 <= cursor(enum_key A) < count(A), fitting a usize): C13_cursor_invariant_init (freshly loaded "
+              "model: empty cursor), C13_cursor_invariant_step (EVERY line preserves it: rejected and non-mutating lines change neither model nor cursor, "
+              "enum writes stop mod count(A), an accepted clause-update / undo-update replaces the model and EMPTIES the cursor - exec: cur := [] = "
+              "Ddnnf::swap after F21 - a refused one changes nothing), C13_cursor_invariant_enum_safe (it implies enum_safe for whatever the line parses "
+              "to), C13_no_panic_inv and C13_no_panic_session (UNCONDITIONAL: no line of any session fed to one instance is answered by a panic, enum "
+              "lines included; the plugged update/undo must hand back a well-formed model over >= 1 feature when they accept: ext_wf, the compiler "
+              "contract of C12; what is left of enum_safe is 0 < n: a model without features - a lone true node - still divides by zero in stop % rt, "
+              "outside the input space), C13_stale_cursor_unreachable (the state the code before F21 reached by enum l 3 / clause-update 4 -> 1 "
+              "configurations: wf_sstate holds, enum panics, the invariant fails) + ex_c13_invariant_hyps (a stand-in that ACCEPTS updates satisfies "
+              "all hypotheses; the session enum l 3 / clause-update / enum / enum / undo-update / enum l 2 / enum l 3 evaluated), C13_profile_irrelevant, "
               "C13_refuted_total_features / _total_features_index / _i32_min / _boundary_gap / _cursor_overflow (V0 witnesses by vm_compute, "
               "each with the V1 answer), C13_error_codes (both versions: an error text starts with its code E1..E6), "
               "C13_reject_unchanged (a rejected line leaves model, cursor and clause cache EQUAL and the scratch state Clean; a line rejected "
@@ -48,8 +60,14 @@ CONFIG = {
         "ASCII lines: non-ASCII char::is_alphabetic / is_whitespace are outside the model (exercised only by the junk generator of the thorough tier: none)",
         "theorems are about the Gallina model; tied to /repo + F2 by exact equality of the answer text (results and errors; error CODE only for lines "
         "with control characters) of every generated line in the debug AND the release profile, one long-lived instance per block",
-        "models loaded from nnf (C01 input space, n = 2..6); CNF-loaded models need the compiler stand-in hook H1 in this harness (TODO): "
-        "clause-update / undo-update / save-cnf are exercised on their E4 / E5 / E6 paths only",
+        "models loaded from nnf (C01 input space, n = 2..6) for the line space: there clause-update / undo-update / save-cnf are exercised on their "
+        "E4 / E5 / E6 paths only; CNF-loaded models (compiler stand-in, hook H1): kind C13U - 30 / 150 sessions per profile of enum / count / "
+        "clause-update add|rmv / undo-update lines (every second update leaves fewer configurations than the cursor position), the model threaded "
+        "through them with the node vector the implementation dumped after each accepted update (so the model's `cur := []` is compared: exact answers), "
+        "the oracle = the truth table of the clause set the session is at (cycle rule of C06, restarting after every accepted update / undo; count = |T|)",
+        "cursor ownership (was finding K2, repaired by F21): block c13-<profile>-k2 - ANOTHER model of the process (8 configurations) is paged before "
+        "and between the enum lines of a 3-configuration model, which must answer from its own empty cursor (exact answers + full cycle rule); "
+        "signature enumerate:cursor-shared-across-models = detector without a finding line (also for C13U defects after an update)",
         "independent oracle: no panic; truth-table answers for well-formed count / sat / core lines (own mini-parser); probe battery "
         "(count, sat, core, enum cursor) unchanged across rejected and non-mutating lines; same request in another group order / spelling / "
         "blanks = same answer; fresh instance = long-lived instance",
